@@ -62,7 +62,63 @@ fn do_call(u: &Unimock, m: u32, a: u8) -> String {
         5 => u.m5(a).take(),
         6 => <Unimock as G<u8>>::g(u, a).take(),
         7 => <Unimock as G<u16>>::g(u, a).take(),
+        10 => u.r0(a).take(),
+        11 => u.r1(a).take(),
+        12 => u.u2(a, a + 1).take(),
+        13 => u.u3(a, a + 1).take(),
+        14 => u.p_ref(a).take(),
         _ => panic!("harness: no such method {m}"),
+    }
+}
+
+/// calls through every receiver kind; by-value / sole-owner Rc and Arc receivers consume the instance
+fn call_any(slot: &mut Option<Unimock>, m: u32, a: u8) -> String {
+    use std::pin::Pin;
+    use std::rc::Rc;
+    use std::sync::Arc;
+    match m {
+        15 | 19 | 20 => {
+            let u = slot.as_mut().unwrap();
+            obs(
+                catch_unwind(AssertUnwindSafe(|| match m {
+                    15 => u.p_mut(a).take(),
+                    19 => Pin::new(u).p_pin(a).take(),
+                    _ => u.m_mut(a).take(),
+                })),
+                show_val,
+            )
+        }
+        16 => {
+            let u = slot.take().unwrap();
+            obs(catch_unwind(AssertUnwindSafe(move || u.p_val(a).take())), show_val)
+        }
+        17 => {
+            let rc = Rc::new(slot.take().unwrap());
+            obs(catch_unwind(AssertUnwindSafe(move || rc.p_rc(a).take())), show_val)
+        }
+        18 => {
+            let rc = Arc::new(slot.take().unwrap());
+            obs(catch_unwind(AssertUnwindSafe(move || rc.p_arc(a).take())), show_val)
+        }
+        21 => {
+            // another Rc to the same instance is kept alive during the call: the instance survives
+            let rc = Rc::new(slot.take().unwrap());
+            let keep = rc.clone();
+            let r = obs(catch_unwind(AssertUnwindSafe(move || rc.p_rc(a).take())), show_val);
+            *slot = Rc::try_unwrap(keep).ok();
+            r
+        }
+        22 => {
+            let rc = Arc::new(slot.take().unwrap());
+            let keep = rc.clone();
+            let r = obs(catch_unwind(AssertUnwindSafe(move || rc.p_arc(a).take())), show_val);
+            *slot = Arc::try_unwrap(keep).ok();
+            r
+        }
+        _ => {
+            let u = slot.as_ref().unwrap();
+            obs(catch_unwind(AssertUnwindSafe(|| do_call(u, m, a))), show_val)
+        }
     }
 }
 
@@ -126,8 +182,7 @@ pub fn run_base(slots: &mut Vec<Option<Unimock>>, unwinding: bool, base: &Base) 
             if !alive(slots, i) {
                 return "invalid".into();
             }
-            let u = slots[i].as_ref().unwrap();
-            obs(catch_unwind(AssertUnwindSafe(|| do_call(u, m, a))), show_val)
+            call_any(&mut slots[i], m, a)
         }
         Base::Clone(i) => {
             if !alive(slots, i) {
